@@ -50,7 +50,7 @@ def write_chunks(c, paths, scns, nchunks):
     groups = []   # (fam, pathset, [records])
     structp = "struct"
     for fam in sorted(scns):
-        ps = {"pred": "pred", "struct": structp, "acl": "struct", "pol": "struct"}[fam]
+        ps = {"pred": "pred", "struct": structp, "acl": "acl", "pol": "struct"}[fam]
         recs = scns[fam]
         step = 150 if fam != "pred" else 400
         for i in range(0, len(recs), step):
